@@ -233,6 +233,8 @@ def p_work(uid, markdir=None, steps=6, fail=False):
         x = 0
         for i in range(steps):
             x += i
+        if fail == 'onlyhere':
+            return OnlyHere()       # a result the parent cannot rebuild
         if fail:
             raise CustomError('own', uid)
         return [uid, x]
